@@ -65,7 +65,7 @@ var words = []string{"", "a", "ab", "abc", "foo", "bar", "baz", "foobar", "web-1
 var keyWords = []string{"a", "b", "c", "foo", "bar", "x", "name", "tags", "meta", "n", "k1", "k2", "k3", "co:lon", "with space", "ünï", "0", "Name", "NAME", "Foo", "FOO", "Env", "ENV", "env"}
 
 // DatumGens lists the constructors for Evaluate data.
-var DatumGens = []string{"doc", "docptr", "json", "jsonnum", "tmap:int", "tmap:slice", "tmap:map", "tmap:ptr", "tmap:any", "tmap:inner", "tmap:ikey", "tmap:nkey", "longlist", "nil", "scalar"}
+var DatumGens = []string{"doc", "docptr", "json", "jsonnum", "tmap:int", "tmap:slice", "tmap:map", "tmap:ptr", "tmap:any", "tmap:inner", "tmap:ikey", "tmap:nkey", "longlist"}
 
 // CollGens lists the constructors for Filter.Execute containers.
 var CollGens = []string{"coll:slice", "coll:ptrslice", "coll:array", "coll:map", "coll:intmap", "coll:named", "coll:namedmap", "coll:jsonlist", "coll:anys", "coll:nilslice", "coll:empty", "coll:anymap", "coll:ptrmap", "coll:scalar"}
